@@ -361,6 +361,9 @@ func run(t *rapid.T, prop string) {
 			return
 		}
 		core.Probe("op:" + r.ex.Kind)
+		if r.ex.Recv != nil && r.ex.Recv.Kind == fam.KFrame && r.ex.Recv.F.Err != nil {
+			core.Probe("operation-on-a-frame-in-error-state")
+		}
 		if strings.HasPrefix(r.conc.Canon, "Err:") {
 			core.Probe("op-result-is-error")
 		}
